@@ -108,7 +108,7 @@ def to_driver(ev):
     return "progress legal " + " ; ".join(out)
 
 
-def one_case(rng, ctx, with_registry):
+def one_case(rng, ctx, with_registry, mode="prim", op_switch_p=0.05, join_shape=False):
     nobs = rng.choice([1, 1, 2, 3])
     prog = RecProgress(nobs)
     workers = rng.choice([1, 2, 3])
@@ -139,8 +139,15 @@ def one_case(rng, ctx, with_registry):
         info["cut"] = env.cut_at
     else:
         spec = plans.gen_spec(rng, nmax=8)
+        if join_shape:
+            # A, B -> C ; C, E -> D : the shape in which a duplicated enqueue shows up in the account
+            spec = {"nodes": [{"id": i, "kind": "call", "args": a, "kwargs": [], "scope": [sc]} for i, a, sc in
+                              [(0, [], "a"), (1, [], "a"), (2, [{"n": 0}, {"n": 1}], "b"), (3, [], "b"), (4, [{"n": 2}, {"n": 3}], "c")]],
+                    "deps": []}
         calls = [nd["id"] for nd in spec["nodes"] if nd["kind"] == "call"]
         failing = {i: rng.choice(["Failure", "ValueError"]) for i in rng.sample(calls, min(len(calls), rng.choice([0, 0, 1, 2])))}
+        if join_shape:
+            failing = {}
         rec = plans.Rec()
         plan, nodes, _ = plans.build(spec, rec, failing)
         ids = [nd["id"] for nd in spec["nodes"]]
@@ -151,7 +158,8 @@ def one_case(rng, ctx, with_registry):
         info["spec"] = spec
         info["output"] = out
         info["failing"] = {str(k): v for k, v in failing.items()}
-    r = coop.run_controlled(thunk, seed, mode="prim")
+    r = coop.run_controlled(thunk, seed, mode=mode, op_switch_p=op_switch_p)
+    info["mode"], info["op_switch_p"], info["join_shape"] = mode, op_switch_p, join_shape
     return r, prog, plan, reg, info
 
 
@@ -280,6 +288,40 @@ def explore(ctx):
     return {"violations": viol, "disagreements": dis, "coverage": cov}
 
 
+def search(ctx, broken):
+    """Something no longer checks: opcode-level preemption on join shapes, monitors only."""
+    rng = random.Random(ctx.seed * 7 + 99)
+    found = []
+    for i in range(900 if ctx.tier == "quick" else 6000):
+        r, prog, plan, reg, info = one_case(rng, ctx, False, mode="opcode", op_switch_p=rng.choice([0.05, 0.2, 0.4]),
+                                            join_shape=rng.random() < 0.7)
+        lines, expect = [], []
+        v = check_case(ctx, r, prog, plan, reg, info, lines, expect)
+        for x in v:
+            x["case"] = info
+        found += v
+        if found:
+            break
+    return found
+
+
 def replay(ctx, payload):
     w = payload.get("witness", payload)
-    return w.get("what")
+    info = w.get("case")
+    if not info or info.get("registry"):
+        return w.get("what")
+    # re-run the same plan: the saved schedule first, then neighbouring schedule seeds (the default scheduler's
+    # priorities depend on set iteration order of node objects, i.e. on addresses, so one seed is not one schedule)
+    nobs = info["observers"]
+    failing = {int(k): v for k, v in (info.get("failing") or {}).items()}
+    for j in range(400):
+        prog = RecProgress(nobs)
+        rec = plans.Rec()
+        plan, nodes, _ = plans.build(info["spec"], rec, failing)
+        thunk = lambda: uberjob.run(plan, output=[nodes[i] for i in info["output"]], max_workers=info["workers"],
+                                    scheduler=info["scheduler"], max_errors=info["max_errors"], progress=prog)
+        r = coop.run_controlled(thunk, info["seed"] + j, mode=info.get("mode", "prim"), op_switch_p=info.get("op_switch_p", 0.05))
+        v = check_case(ctx, r, prog, plan, None, info, [], [])
+        if v:
+            return v[0]["what"] + (" (schedule seed +%d)" % j if j else "")
+    return None
